@@ -1,19 +1,36 @@
 #!/bin/sh
-# Offline build of the framework: full .vo build of the Coq development and a
-# warm-up build of every harness against /repo. Run once after a fresh restore.
+# Offline build of the framework after a fresh restore: full .vo build of the Coq development of every
+# property claimed in MANIFEST.json (each through its own coq_makefile project) and a warm-up build of
+# its harness against /repo.
 set -e
 cd "$(dirname "$0")"
 export GOFLAGS=-mod=mod GOPROXY=off GOSUMDB=off GOTOOLCHAIN=local
+mkdir -p bin work evidence replays
 python3 - <<'PY'
-import sys
+import json, os, subprocess, sys
 sys.path.insert(0, "lib")
 import vcheck
-rc, out = vcheck.coq_make([])
-print(out[-3000:])
-if rc != 0:
-    sys.exit("coq build failed")
+man = json.load(open("MANIFEST.json"))
+props = [c["property_id"] for c in man["checks"]]
+bad = []
+for p in props:
+    cfg = json.load(open(os.path.join("props", p + ".json")))
+    d = cfg.get("coq_dir", p)
+    rc, out = vcheck.coq_make(["%s/Properties.vo" % d, "%s/Corr.vo" % d], dirs=vcheck.prop_dirs(d))
+    if rc != 0:
+        print(out[-3000:])
+        bad.append(p + " (coq)")
+        continue
+    print("[setup] coq %s ok" % p, flush=True)
 vcheck.write_go_sum()
+names = sorted({json.load(open(os.path.join("props", p + ".json"))).get("harness", p) for p in props})
+for n in names:
+    r = subprocess.run(["go", "build", "-tags", "verif", "-o", os.path.join("..", "bin", n), "./cmd/" + n], cwd="harness", env=vcheck.GOENV)
+    if r.returncode != 0:
+        bad.append(n + " (go build)")
+    else:
+        print("[setup] harness %s ok" % n, flush=True)
+if bad:
+    sys.exit("setup failed for: " + ", ".join(bad))
 PY
-mkdir -p bin work evidence replays
-(cd harness && go build -tags verif -o ../bin/ ./cmd/... )
 echo "setup ok"
